@@ -81,6 +81,7 @@ class Runner:
         if not q:
             return
         n = q.pop(0)
+        self.last_delivered = n
         core = self.core
         if n[0] == "stream_changed":
             core.stream_changed(uri=n[1])
@@ -207,6 +208,7 @@ class Runner:
         n_ev, n_ac, n_at = len(env.events), len(env.audio.calls), len(env.attempts)
         audio0 = env.audio
         b0 = env.backend_calls
+        self.last_delivered = None
         env.budget = b0 + self.budget_fn(self.core.tracklist.get_length())
         diverged = False
         exc_name = None
@@ -262,7 +264,8 @@ class Runner:
                + [-1 if env.mixer_volume is None else env.mixer_volume,
                   -1 if env.mixer_mute is None else int(env.mixer_mute),
                   core.history.get_length(), len(a.queue),
-                  -1 if a.uri is None else env.index_of_uri(a.uri), core_env.PS_CODE[a.state]])
+                  -1 if a.uri is None else env.index_of_uri(a.uri), core_env.PS_CODE[a.state],
+                  op_calls])
         self.trace.append({
             "op": op, "ret": ret, "exc": exc_name, "diverged": diverged, "backend_calls": op_calls,
             "tl": [(t.tlid, env.index_of_uri(t.track.uri)) for t in tlts], "version": v1,
@@ -276,6 +279,7 @@ class Runner:
                       core.tracklist.get_repeat(), core.tracklist.get_single()),
             "volume": env.mixer_volume, "mute": env.mixer_mute, "tl_len_before": None,
             "protocol_violations": a.protocol_violations, "atf_done": a.atf_done,
+            "delivered": self.last_delivered,
         })
         return obs, diverged
 
